@@ -24,7 +24,8 @@ func NewKeystore() *Keystore { return &Keystore{keys: map[string]crypto.PrivKey{
 
 func derive(id string) crypto.PrivKey {
 	seed := sha256.Sum256([]byte("verif-key-" + id))
-	priv, _, err := crypto.GenerateSecp256k1Key(&seedReader{seed: seed[:]})
+	// libp2p's GenerateSecp256k1Key ignores its reader, so build the key from the seed bytes directly
+	priv, err := crypto.UnmarshalSecp256k1PrivateKey(seed[:])
 	if err != nil {
 		panic(err)
 	}
